@@ -31,4 +31,34 @@ AdmitAll(a, v) == TRUE
 (* quick tier: every access list against at most one view, and three access lists
    against every pair of views *)
 AdmitQuick(a, v) == Len(v) <= 1 \/ a \in AclViews
+
+(* ---- the sentinel family (gap C17-r3-2) --------------------------------------------------
+   responseWriter.Reset takes a *net.UDPAddr / *net.TCPAddr peer 127.0.0.255 with port 0 for a
+   synthesised internal query.  Networks and sources are concrete here (the harness uses exactly
+   these, also on real UDP / TCP sockets):
+     all4 0.0.0.0/0   lo8 127.0.0.0/8   lolow 127.0.0.0/25   sent32 127.0.0.255/32
+     near32 127.0.0.254/32   hi31 127.0.0.254/31   all6 ::/0   bad (unparsable)
+     lo1 127.0.0.1   near 127.0.0.254   sent 127.0.0.255   mapsent ::ffff:127.0.0.255 (counts as IPv4)
+     ext 198.51.100.7   v6x 2001:db8::17 *)
+SNets == {"all4", "lo8", "lolow", "sent32", "near32", "hi31", "all6", "bad"}
+SSrcs == {"lo1", "near", "sent", "mapsent", "ext", "v6x"}
+SSentinel == {"sent", "mapsent"}
+SCovers ==
+  [n \in SNets |-> [s \in SSrcs |->
+     CASE n = "all4"   -> s \in {"lo1", "near", "sent", "mapsent", "ext"}
+       [] n = "lo8"    -> s \in {"lo1", "near", "sent", "mapsent"}
+       [] n = "lolow"  -> s = "lo1"
+       [] n = "sent32" -> s \in {"sent", "mapsent"}
+       [] n = "near32" -> s = "near"
+       [] n = "hi31"   -> s \in {"near", "sent", "mapsent"}
+       [] n = "all6"   -> s = "v6x"
+       [] OTHER        -> FALSE]]
+SAcls == {{}, {"all4"}, {"lo8"}, {"lolow"}, {"sent32"}, {"near32"}, {"hi31"}, {"lolow", "sent32"},
+          {"lolow", "near32"}, {"all6"}, {"lolow", "bad"}, {"all6", "lolow"}}
+(* every access list without views; a view over the sentinel (or not) under three of them *)
+AdmitSent(a, v) == IF Len(v) = 0 THEN TRUE     \* (IF, not \/: TLC splits a disjunction of Init into branches)
+                   ELSE v[1].net \in {"all4", "hi31", "lolow"} /\ a \in {{}, {"lolow"}, {"lo8"}}
+SentTransports == {"udp", "tcp", "doh", "doq"}
+NoSrcs == {}
+MCTrue == TRUE
 =============================================================================
